@@ -93,4 +93,10 @@ def Re.need : Re → Nat → Nat
   | .group _ r, n => r.need n + 1
   | _, _ => 1
 
+/-- the spans `(start, end, _)` are in order, do not overlap, start at or after `cur` and end at or
+before `bound` -/
+def SpansIn (bound : Nat) : Nat → List (Nat × Nat × Caps) → Prop
+  | _, [] => True
+  | cur, (a, e, _) :: t => cur ≤ a ∧ a ≤ e ∧ e ≤ bound ∧ SpansIn bound e t
+
 end Scrapli.Rx
